@@ -1,9 +1,9 @@
 #!/bin/bash
-# tools/confirm_seeded.sh <ID> <n>: confirm a sub-agent's seeded change in its scratch worktree
+# tools/confirm_seeded.sh <ID> <n> [<dest n>]: confirm a sub-agent's seeded change in its scratch worktree
 # /tmp/wt/<ID>: patch applies, builds, repository tests pass, the demonstration differs between the
 # modified and the unmodified tree. On success copies it to /verif/seeded/<ID>/<n>/.
 set -u
-id=$1; n=$2; wt=/tmp/wt/$id; sd=$wt/SEEDED/$n
+id=$1; n=$2; dn=${3:-$n}; wt=/tmp/wt/$id; sd=$wt/SEEDED/$n
 export GOFLAGS=-mod=mod GOPROXY=off GOSUMDB=off GOTOOLCHAIN=local
 cd $wt || exit 2
 git checkout -q -- . ; git clean -fdq -e SEEDED -e PROPERTY.json
@@ -20,9 +20,9 @@ mod=$(rundemo)
 git checkout -q -- . ; git clean -fdq -e SEEDED -e PROPERTY.json
 if [ $tr -ne 0 ]; then echo "CONFIRM $id/$n: repository tests FAIL"; echo "$t" | grep -v "^ok\|no test files" | head; exit 1; fi
 if [ "$base" == "$mod" ]; then echo "CONFIRM $id/$n: demonstration shows no difference"; echo "$mod" | head; exit 1; fi
-mkdir -p /verif/seeded/$id/$n
-cp $sd/patch.diff $sd/meta.json /verif/seeded/$id/$n/
-rm -rf /verif/seeded/$id/$n/demo; cp -r $sd/demo /verif/seeded/$id/$n/demo
-printf '%s\n' "$base" > /verif/seeded/$id/$n/demo_output_unmodified.txt
-printf '%s\n' "$mod" > /verif/seeded/$id/$n/demo_output_modified.txt
+mkdir -p /verif/seeded/$id/$dn
+cp $sd/patch.diff $sd/meta.json /verif/seeded/$id/$dn/
+rm -rf /verif/seeded/$id/$dn/demo; cp -r $sd/demo /verif/seeded/$id/$dn/demo
+printf '%s\n' "$base" > /verif/seeded/$id/$dn/demo_output_unmodified.txt
+printf '%s\n' "$mod" > /verif/seeded/$id/$dn/demo_output_modified.txt
 echo "CONFIRM $id/$n: ok (applies, builds, tests pass, demo differs) files=$(grep -c '^diff' $sd/patch.diff)"
